@@ -169,6 +169,11 @@ def transport_case(ctx, i):
             if for_blobs[k] or longest_element(stream, ends) <= 2000:
                 break
         cuts = P.random_cuts(rng, len(stream), rng.choice([1, 2, 3, 6]))
+        if rng.random() < 0.6:
+            # cuts aimed at the structure: inside and right around tags, terminators, quotes
+            sp = [c for c in P.structural_positions(stream) if 0 < c < len(stream)]
+            if sp:
+                cuts = sorted(set(rng.sample(sp, min(len(sp), rng.choice([1, 2, 4])))) | set(cuts[:1]))
         conns.append((stream, ams, ends, P.cut(stream, cuts)))
     how = ["round-robin", "random", "random", "sequential"][(i // 2) % 4]
     schedule = T.interleavings(rng, [len(c[3]) for c in conns], how)
@@ -187,6 +192,9 @@ def transport_case(ctx, i):
         return True
     if res.foreign:
         ctx.violate(f"transport:delivery-attributed-to-nobody:{kind}", f"{res.foreign[0]}", case, detail)
+        return True
+    for step, ci, what, text in T.differential_problems(res):
+        ctx.violate(f"transport:{what}:{kinds[ci] if isinstance(kinds, list) else kinds}" + (":blob-mode" if for_blobs[ci] else ""), text, case, detail)
         return True
     for step, (ci, fed, ndel) in enumerate(res.after):
         due = sum(1 for e in conns[ci][2] if e <= fed)
